@@ -227,7 +227,7 @@ func (pih *partKeyIterHeap) Less(i, j int) bool {
 	if asc {
 		return bmi.lessByKey(bmj)
 	}
-	return bmj.lessByKey(bmi)
+	return bmi.greaterByKey(bmj)
 }
 
 func (pih *partKeyIterHeap) Swap(i, j int) {
